@@ -138,7 +138,7 @@ func init() {
 		ID:    "C14",
 		Title: "Function execution strategies change timing, never results",
 		Level: "exploration",
-		Rule: "ASYNC calls as the chosen branch of IF; a CTE read by both branches of a UNION; a name registered as plain first and immediate then. phase 'consumed': ASYNC columns of nested queries (derived table, CTE, join operand, IN sub-select, dual) consumed by the enclosing query vs the unqualified call; phase 'reexec-fail': one Query executed four times with a failing background call in one of the executions; an immediate function registered late; ledger shapes with a CTE read twice (named like its table, or from a nested scope); failures inside nested queries and inner dimensions. ledger shapes also: rows spread over 2..3 array levels, ORDER BY / DISTINCT over an async column (oracle: the unqualified query). Phase 'builtin' (race child): ASYNC over built-in functions on 32..288 rows with 256 B..128 KiB payloads vs the unqualified call. Phase 'failwait': a synchronous step fails on row k while background calls are in flight - none may be running when Exec returns its error. phase 'joinop': ASYNC / SPINASYNC / AWAIT(ASYNC) items of derived tables used as join operands (ledger + values + plain data). Ledger cases may carry a LIMIT/OFFSET page (also empty): rows the page drops must have no call running at exec-return. each case = a table of 0..12 rows x a select list mixing 1..4 calls of an instrumented pure function VF(arg, rowid, site) - unqualified, ASYNC., SPINASYNC., SPIN., ONCE. - with plain columns and *, optional WHERE, also inside a select-list subquery; run under 3 (thorough 12) latency profiles (zero, yield, random 10-500us, skewed so that later rows finish first, one 5 ms straggler). " +
+		Rule: "phase 'once-spelling': one ONCE function in several letter cases. ASYNC calls as the chosen branch of IF; a CTE read by both branches of a UNION; a name registered as plain first and immediate then. phase 'consumed': ASYNC columns of nested queries (derived table, CTE, join operand, IN sub-select, dual) consumed by the enclosing query vs the unqualified call; phase 'reexec-fail': one Query executed four times with a failing background call in one of the executions; an immediate function registered late; ledger shapes with a CTE read twice (named like its table, or from a nested scope); failures inside nested queries and inner dimensions. ledger shapes also: rows spread over 2..3 array levels, ORDER BY / DISTINCT over an async column (oracle: the unqualified query). Phase 'builtin' (race child): ASYNC over built-in functions on 32..288 rows with 256 B..128 KiB payloads vs the unqualified call. Phase 'failwait': a synchronous step fails on row k while background calls are in flight - none may be running when Exec returns its error. phase 'joinop': ASYNC / SPINASYNC / AWAIT(ASYNC) items of derived tables used as join operands (ledger + values + plain data). Ledger cases may carry a LIMIT/OFFSET page (also empty): rows the page drops must have no call running at exec-return. each case = a table of 0..12 rows x a select list mixing 1..4 calls of an instrumented pure function VF(arg, rowid, site) - unqualified, ASYNC., SPINASYNC., SPIN., ONCE. - with plain columns and *, optional WHERE, also inside a select-list subquery; run under 3 (thorough 12) latency profiles (zero, yield, random 10-500us, skewed so that later rows finish first, one 5 ms straggler). " +
 			"The function logs call-start / call-end into an append-only ledger ordered by one atomic counter and the check logs exec-return right after Exec returns. Oracle over the ledger and the result: at exec-return every ASYNC and SPINASYNC (row, site) of every kept row has exactly one call-start and one call-end, both earlier; " +
 			"each ASYNC column holds exactly the value the pure function gives (and the whole result equals the same query with the qualifiers removed); no unresolved slot or other non-plain value; SPIN / SPINASYNC add no column; ONCE is invoked exactly once per query and every row sees that value. " +
 			"Phase 'immediate': every function registered as immediate (17 built-ins + one harness function) x ASYNC/SPIN/SPINASYNC must be rejected with an error. Phase 'race' repeats the ledger workload in a -race child with yields at the hooks inside the background goroutines. " +
